@@ -25,8 +25,9 @@ Record cty : Type := mkCty { c_self :> ty; c_bits : ty; c_valid : list N -> bool
 Record ptr : Type := mkPtr { addr : N; avail : N }.
 Record slice : Type := mkSlice { sptr : ptr; slen : N }.
 
-(* environment: enabled cargo features and the (flat, byte-addressed) memory *)
-Record env : Type := mkEnv { feat : string -> bool; mem : N -> N }.
+(* environment: enabled cargo features, the (flat, byte-addressed) memory, and the global
+   allocator's answer to alloc_zeroed(size, align) (an oracle: 0 is the null pointer = failure) *)
+Record env : Type := mkEnv { feat : string -> bool; mem : N -> N; heap : N -> N -> N }.
 
 Definition u8_ty : ty := mkTy 1 1.
 Definition unit_ty : ty := mkTy 0 1.
